@@ -439,6 +439,7 @@ def mkconn(server: bool, loop=None, **over):
     conn = cls(loop, opts)
     conn._logger = NullLogger()
     conn._transport = RecTransport()
+    conn._rekey_seconds = 0          # time-based rekey off unless a harness turns it on (the clock is then an explicit input)
     for k, v in over.items():
         if k.startswith('_'):
             setattr(conn, k, v)
